@@ -21,7 +21,7 @@ RULE = (
     'abort, unencodable values: lone-surrogate text >= threshold, unpicklable object, stream failing on its second chunk) plus '
     'at most ONE injected failure: sqlite3.OperationalError("disk I/O error") at the n-th statement of op j (a failing COMMIT '
     'rolls back first, as SQLite does; a failing BEGIN is a lock timeout), or OSError(ENOSPC) at the n-th file open/write '
-    'chunk/makedirs of op j. quick tier: one sampled fault site per history; thorough tier: EVERY fault site of every '
+    'chunk/makedirs of op j, or OSError(EIO) at the n-th open-for-reading/read of a value file. quick tier: one sampled fault site per history; thorough tier: EVERY fault site of every '
     'generated history; plus 2-4 client scheduled programs (C05). Oracle after the last call returned or raised: '
     'Settings.count = #rows, Settings.size = sum of row sizes, every row with a filename has a file of the recorded size, '
     'no *.val file without a row, len()/volume() agree, check() reports nothing but EmptyDirWarning. non-trivial = a fault '
@@ -227,6 +227,7 @@ class FaultInjector(Controller):
         self.op_index = -1
         self.sql_n = 0
         self.io_n = 0
+        self.rio_n = 0
         self.sites = []  # (j, kind, n, label)
         self.fired = None
         self.progress_before_fault = 0
@@ -237,6 +238,7 @@ class FaultInjector(Controller):
         self.op_index = j
         self.sql_n = 0
         self.io_n = 0
+        self.rio_n = 0
         self.progress = 0
 
     def event(self, kind, label, con=None):
@@ -261,9 +263,15 @@ class FaultInjector(Controller):
                 raise sqlite3.OperationalError('disk I/O error')
             if lab.split()[0] in ('sql:INSERT', 'sql:UPDATE', 'sql:DELETE'):
                 self.progress += 1
+        elif kind == 'read' or (kind == 'open' and not any(c in label for c in 'wxa')):
+            # read side: one OS error while a value file is opened or read
+            self.rio_n += 1
+            self.sites.append((j, 'rio', self.rio_n, kind))
+            if self.fault is not None and self.fired is None and self.fault[0] == 'rio' and self.fault[1] == j and self.fault[2] == self.rio_n:
+                self.fired = (j, 'rio', self.rio_n, kind)
+                self.progress_before_fault = self.progress
+                raise OSError(errno.EIO, 'Input/output error')
         elif kind in ('open', 'write', 'makedirs'):
-            if kind == 'open' and not any(c in label for c in 'wxa'):
-                return
             self.io_n += 1
             self.sites.append((j, 'io', self.io_n, kind))
             if self.fault is not None and self.fired is None and self.fault[0] == 'io' and self.fault[1] == j and self.fault[2] == self.io_n:
@@ -370,7 +378,7 @@ class FaultedHistories(SubCheck):
                 'cfg': cfg_strategy,
                 'ops': st.lists(ops_strategy(), min_size=1, max_size=12 if tier == 'quick' else 16),
                 'pick': st.integers(0, 10**6),
-                'fault_kind': st.sampled_from(['sql', 'sql', 'io', 'none']),
+                'fault_kind': st.sampled_from(['sql', 'sql', 'io', 'rio', 'none']),
                 'site': st.none(),
             }
         )
